@@ -83,6 +83,8 @@ class SimSpec:
             "max_nodes": hist(t["args"]["scen"]["max_nodes"] for t in tasks),
             "time_based_x_try_add": sum(1 for t in tasks if any(g["time_based"] and g["try_add"] for g in t["args"]["scen"]["groups"])),
             "long_delays_injected_at_critical_points": total(ok, "parks"),
+            "inner_icontract_monitor_evaluations": total(ok, "inner_evals"),
+            "inner_icontract_monitor_failures_advisory": total(ok, "inner_failure_count"),
             "scenarios_with_full_slurm_state_vocabulary": sum(1 for t in tasks if t["args"]["scen"].get("squeue_vocab") == "full"),
         }
 
